@@ -102,13 +102,22 @@ class QueriesLeg(object):
                     q["seqid"] = f["seqid"]
                     q["start"] = max(1, f["start"] + draw(st.integers(-2, 2)))
                     q["end"] = max(q["start"], f["end"] + draw(st.integers(-2, 2)))
-            return {"features": feats, "queries": qs}
+            return {"features": feats, "queries": qs,
+                    "shift": draw(st.sampled_from([0, 0, 0, 1 << 17, (1 << 20) + 5, 131070]))}
 
         return case()
 
+    @staticmethod
+    def _stored(case):
+        """Features as stored: a generated shift is applied by a transform while importing."""
+        sh = case.get("shift", 0)
+        if not sh:
+            return case["features"]
+        return [dict(f, start=f["start"] + sh, end=f["end"] + sh) for f in case["features"]]
+
     def _expect(self, case, q):
         """-> (must, may): ids that must be returned / may additionally be returned."""
-        feats = case["features"]
+        feats = self._stored(case)
         s, e = q["start"], q["end"]
         form = q.get("form")
         strand = q["strand"]
@@ -159,7 +168,7 @@ class QueriesLeg(object):
     def classify(self, case):
         n = len(case["features"])
         nt = False
-        labels = []
+        labels = ["shifted-by-transform"] if case.get("shift") else []
         for q in case["queries"]:
             must, _ = self._expect(case, q)
             edge = _near_edge(q["start"]) or _near_edge(q["end"])
@@ -184,7 +193,15 @@ class QueriesLeg(object):
         for f in feats:
             attrs = "ID=%s" % f["id"] + (";Parent=f0" if f["parent"] else "")
             lines.append("\t".join([f["seqid"], "src", f["ft"], str(f["start"]), str(f["end"]), ".", f["strand"], ".", attrs]))
-        db = gffutils.create_db("\n".join(lines) + "\n", ":memory:", from_string=True)
+        sh = case.get("shift", 0)
+
+        def shift(x):
+            x.start += sh
+            x.end += sh
+            return x
+
+        db = gffutils.create_db("\n".join(lines) + "\n", ":memory:", from_string=True, transform=shift if sh else None)
+        feats = self._stored(case)
         child = next((f for f in feats if f["parent"]), None)
         for q in case["queries"]:
             s, e, seqid = q["start"], q["end"], q["seqid"]
